@@ -85,7 +85,7 @@ impl Axecutor {
             if segment.p_vaddr == 0 {
                 debug_log!(
                     "ELF: Skip loading segment with p_vaddr == 0, p_type {} ({})",
-                    p_type_to_str(segment.p_type).expect("Unknown segment type"),
+                    p_type_to_str(segment.p_type).unwrap_or("unknown"),
                     segment.p_type
                 );
                 continue;
@@ -100,7 +100,7 @@ impl Axecutor {
                 PT_NULL | PT_NOTE | PT_SHLIB | PT_PHDR => {
                     debug_log!(
                         "ELF: Skip loading segment of type {} ({:#x}) @ {:#x} with size {:#x}",
-                        p_type_to_str(segment.p_type).expect("Unknown segment type"),
+                        p_type_to_str(segment.p_type).unwrap_or("unknown"),
                         segment.p_type,
                         segment.p_vaddr,
                         segment.p_memsz
@@ -182,7 +182,7 @@ impl Axecutor {
                 PT_LOAD => {
                     debug_log!(
                         "ELF: Loading segment of type {} at {:#x} with size {:#x} and offset {:#x}",
-                        p_type_to_str(segment.p_type).expect("Unknown segment type"),
+                        p_type_to_str(segment.p_type).unwrap_or("unknown"),
                         segment.p_vaddr,
                         segment.p_memsz,
                         segment.p_offset,
